@@ -199,6 +199,25 @@ fn main() {
       }
       h::util::write_json(&args[3], &json!({"runs": runs, "with_issues": outs.len(), "fresh_issues": fresh, "outcomes": outs.into_iter().take(200).collect::<Vec<_>>()}));
     }
+    "trie" => {
+      // vh trie <behaviours.jsonl> <out.json> [--perturb] [--race N]
+      let beh: Vec<h::trie::Behaviour> = h::util::read_jsonl(&args[2]);
+      let perturb = args.iter().any(|a| a == "--perturb");
+      let race: usize = args.iter().position(|a| a == "--race").and_then(|i| args.get(i + 1)).and_then(|s| s.parse().ok()).unwrap_or(0);
+      let mut outs = Vec::new();
+      let mut runs = 0usize;
+      for (i, b) in beh.iter().enumerate() {
+        for m in ["binary", "ascii"] {
+          let o = h::trie::run(i, b, m, perturb);
+          runs += 1;
+          if !o.issues.is_empty() {
+            outs.push(serde_json::to_value(&o).unwrap());
+          }
+        }
+      }
+      let race_issues = if race > 0 { h::trie::race_probe(race) } else { vec![] };
+      h::util::write_json(&args[3], &json!({"runs": runs, "with_issues": outs.len(), "race_issues": race_issues, "outcomes": outs.into_iter().take(100).collect::<Vec<_>>()}));
+    }
     other => h::util::tool_error(&format!("unknown subcommand {}", other)),
   }
 }
